@@ -58,6 +58,7 @@ class MembershipMonitor(Ext):
         snapshot it loaded) folded with the membership entries of its log up to k.  Node-relative on
         purpose: a node that was added later starts with the then current member list, so for positions
         before its own addition its set legitimately differs from the one an original member had there."""
+        self.rebase_on_loaded_snapshot(p)
         base, upto = self.base[p]
         changes = []
         for e in p.journal.mirror:
@@ -76,7 +77,18 @@ class MembershipMonitor(Ext):
         # (what a snapshot carries is checked when it is taken, see SnapshotMonitor.on_serialize)
         p.pending_base = (cluster, k)
 
+    def rebase_on_loaded_snapshot(self, p):
+        """A snapshot the node has loaded (received, or its dump file at start) is its base configuration from that position
+        on - at once, also for a snapshot it takes later in the very same tick."""
+        pb = getattr(p, 'pending_base', None)
+        if pb is not None:
+            cl, k = pb
+            cl = set(cl) | ({p.key} if p.voter else set())
+            self.base[p] = (cl, k)
+            p.pending_base = None
+
     def expected_members(self, p):
+        self.rebase_on_loaded_snapshot(p)
         base, upto = self.base[p]
         changes = []
         for e in p.journal.mirror:
